@@ -14,12 +14,20 @@ EXPLANATION = (
     "preconditions; (4) encode checks every input piece against share_size before calling zfec, passes the pieces and the "
     "wanted ids through and returns the ids it used (default: all max_shares ids); (5) the callers (immutable "
     "downloader, mutable retrieve) build the block list and the share-number list pairwise in one loop and truncate "
-    "them identically; the callers of encode (immutable encoder, mutable publish) cut a segment into exactly k pieces "
-    "of the codec's block size, padded to that size; (6) the codec objects are shared between segments and encode/decode "
+    "them identically; mutable retrieve decodes exactly the component of _validate_block's {shnum: (block, salt)} entries "
+    "that _validate_block checked against the share's block hash tree in every format version (followed back from the "
+    "paired loop through dict() / comprehensions / an unpacking loop target), and _validate_block files it under the share "
+    "number whose block hash tree it used; the callers of encode (immutable encoder, mutable publish) cut a segment into "
+    "exactly k pieces of the codec's block size, padded to that size; (6) the codec objects are shared between segments and encode/decode "
     "give up the reactor turn while zfec runs in the CPU thread pool, so calls overlap: what one call hands to zfec (followed "
     "through helper methods, closures, functools.partial and the thread-pool runners) depends on no instance / class / module "
     "state that encode/decode or anything they run writes and that is read back after the turn was given up (in the thread "
-    "pool or after an await); results are returned from the call's own frame (3, 4).  Undecided: that any k blocks determine the segment (zfec).")
+    "pool or after an await); results are returned from the call's own frame (3, 4).  Undecided: that any k blocks determine the segment (zfec); "
+    "which segment is the tail and the selection of the tail codec, tail sizes and the trimming of the tail padding after "
+    "decode (value-level here; the consistent selection is decided by C01.6 for immutable files and by C09.5 / C09.10 for "
+    "mutable files - the CRS decoders of one file differ only in data_size, which decode does not use); the salt taken "
+    "from the entries; the entries Retrieve.decode receives from the in-place update (only _validate_block's results are "
+    "followed); that Retrieve's own `at least k shares` assertion holds (CRSDecoder.decode re-checks `exactly k`, 3).")
 TECHNIQUE = ("static analysis: symbolic normal forms of wrapper arguments, CFG gate rules for the preconditions, paired-append "
              "analysis, inter-procedural def-use cone of the zfec arguments against per-call writes to shared state")
 
@@ -457,13 +465,22 @@ def paired_lists(r, fn, call, what):
     for lp in loops:
         if inner is None or any(x is lp.ast for x in ast.walk(inner.ast)):
             inner = lp
+    # the loop target is (shnum, block) or (shnum, (block, ...)): the value may be unpacked in the target
     okl = inner is not None and isinstance(inner.ast.target, ast.Tuple) and len(inner.ast.target.elts) == 2 \
-        and all(isinstance(e, ast.Name) for e in inner.ast.target.elts) \
+        and isinstance(inner.ast.target.elts[0], ast.Name) \
+        and (isinstance(inner.ast.target.elts[1], ast.Name) or (isinstance(inner.ast.target.elts[1], ast.Tuple) and all(
+            isinstance(e, ast.Name) for e in inner.ast.target.elts[1].elts))) \
         and isinstance(inner.ast.iter, ast.Call) and call_tail(inner.ast.iter) == "items"
     r.require(okl, fn, fn.loc(call), "%s: blocks and share numbers are not collected in one loop over (shnum, block) items" % what)
     if not okl:
         return
-    kname, vname = [e.id for e in inner.ast.target.elts]
+    kname, vt, comps0 = inner.ast.target.elts[0].id, inner.ast.target.elts[1], []
+    if isinstance(vt, ast.Name):
+        vname = vt.id
+    else:
+        parts = [e.id for e in vt.elts]
+        vname = nf(ca.args[0]) if nf(ca.args[0]) in parts and parts.count(nf(ca.args[0])) == 1 else "one of (%s)" % ", ".join(parts)
+        comps0 = [parts.index(vname)] if vname in parts else []
     r.require(nf(ca.args[0]) == vname and nf(cb.args[0]) == kname, fn, fn.loc(ca),
               "%s: decode(blocks=%s, ids=%s) but the loop appends %s to the blocks and %s to the ids (loop yields (%s, %s))" % (
                   what, a0.id, a1.id, nf(ca.args[0]), nf(cb.args[0]), kname, vname))
@@ -493,6 +510,111 @@ def paired_lists(r, fn, call, what):
             trunc.setdefault(nm, []).append(form if form is not None else "?" + nf(v))
     r.require(trunc.get(a0.id, []) == trunc.get(a1.id, []) and not any(x.startswith("?") for x in trunc.get(a0.id, [])), fn, fn.loc(call),
               "%s: blocks are cut with %s but share numbers with %s" % (what, trunc.get(a0.id, []), trunc.get(a1.id, [])))
+    return inner, comps0
+
+
+def pair_source(idx, fn, loop, comps0=()):
+    """Where the (share number, value) pairs that `loop` iterates come from.  Followed backwards through `.items()`,
+    dict(...) / list(...) / tuple(...), single reaching definitions and comprehensions `(k, v[i]) for k, v in M.items()` /
+    `{k: v[i] for k, v in M.items()}` to a parameter or a container that fn fills itself.  Returns (source expression,
+    component path, the comprehension that selects the component or None): the component path is the list of constant
+    subscripts applied to a value of the source mapping to get what is decoded.  None: a step was not understood."""
+    sym = Sym(idx, fn)
+    node, e, comps, where = loop, loop.ast.iter, list(comps0), None
+    for _step in range(12):
+        if isinstance(e, ast.Call) and isinstance(e.func, ast.Attribute) and e.func.attr == "items" and not e.args and not e.keywords:
+            e = e.func.value
+        elif isinstance(e, ast.Call) and isinstance(e.func, ast.Name) and e.func.id in ("dict", "list", "tuple") and len(e.args) == 1 \
+                and not e.keywords and not isinstance(e.args[0], ast.Starred):
+            e = e.args[0]
+        elif isinstance(e, ast.Name):
+            ds = sym.rd.get(node.id, {}).get(e.id, frozenset())
+            if len(ds) != 1 or C.PARAM_DEF in ds:
+                return e, comps, where
+            dn = sym.cfg.nodes[next(iter(ds))]
+            v = sym.fnorm._def_value(dn, e.id)
+            if v is None:
+                return None
+            if isinstance(v, (ast.Dict, ast.List)) or (isinstance(v, ast.Call) and not v.args and not v.keywords):
+                return e, comps, where          # a container fn fills itself (update / item stores)
+            node, e = dn, v
+        elif isinstance(e, (ast.ListComp, ast.GeneratorExp, ast.DictComp)):
+            if len(e.generators) != 1:
+                return None
+            g = e.generators[0]
+            if not (isinstance(g.target, ast.Tuple) and len(g.target.elts) == 2 and all(isinstance(t, ast.Name) for t in g.target.elts)):
+                return None
+            kn, vn = [t.id for t in g.target.elts]
+            if isinstance(e, ast.DictComp):
+                ke, ve = e.key, e.value
+            elif isinstance(e.elt, ast.Tuple) and len(e.elt.elts) == 2:
+                ke, ve = e.elt.elts
+            else:
+                return None
+            here = []
+            while isinstance(ve, ast.Subscript) and isinstance(ve.slice, ast.Constant) and isinstance(ve.slice.value, int):
+                here.insert(0, ve.slice.value)
+                ve = ve.value
+            if not (isinstance(ke, ast.Name) and ke.id == kn and isinstance(ve, ast.Name) and ve.id == vn):
+                return None
+            if here and where is None:
+                where = e
+            comps, e = here + comps, g.iter
+        else:
+            return None
+    return None
+
+
+def run_validated_blocks(idx, r, fn, loop, comps0, what):
+    """Mutable retrieve: _decode_blocks receives the dicts {shnum: (block, salt)} that _validate_block returns.  What it
+    decodes must be the component that _validate_block checked against the share's block hash tree, filed under the
+    number of that share: the salt (or any other component) is not a block, and a block filed under another number is
+    handed to zfec with the wrong share id."""
+    got = pair_source(idx, fn, loop, comps0)
+    if got is None:
+        raise AnchorVanished("%s: cannot follow the (share number, block) pairs of %s back to their source" % (what, short(fn)))
+    source, comps, where = got
+    if not set(first_positional_params(fn)) & depends_on(fn, source):
+        raise AnchorVanished("%s: the decoded pairs (%s) do not come from the arguments of %s" % (what, src(fn, source), short(fn)))
+    vb = idx.func("mutable.retrieve:Retrieve._validate_block")
+    vs = Sym(idx, vb)
+    rets = [t for t in vb.cfg().find(is_return) if t.ast.value is not None]
+    hashed = [(c, args) for (c, callee, args, _k, _d) in _invocations(vb) if (attr_path(callee) or "").split(".")[-1] == "block_hash"]
+    trees = [x for x in func_own_nodes(vb) if isinstance(x, ast.Subscript) and isinstance(x.ctx, ast.Load)
+             and attr_path(x.value) == "self._block_hash_trees"]
+    if not rets or not hashed or not trees:
+        raise AnchorVanished("Retrieve._validate_block: %d result(s), %d block_hash computation(s), %d block hash tree lookup(s)" % (
+            len(rets), len(hashed), len(trees)))
+    r.site(fn, where if where is not None else loop.ast, "%s: what is decoded is the validated block of that share" % what)
+    for t in rets:
+        v = vs.expand(t, t.ast.value)
+        if not (isinstance(v, ast.Dict) and len(v.keys) == 1 and v.keys[0] is not None):
+            raise AnalysisError("Retrieve._validate_block returns %s, not a one-entry {shnum: (block, salt)} literal" % src(vb, t.ast.value))
+        key, el, path = vs.expand(t, v.keys[0]), vs.expand(t, v.values[0]), list(comps)
+        while path and isinstance(el, (ast.Tuple, ast.List)) and len(el.elts) > path[0] >= 0:
+            el, path = vs.expand(t, el.elts[path[0]]), path[1:]
+        sel = "".join("[%d]" % i for i in comps)
+        if path or isinstance(el, (ast.Tuple, ast.List)):
+            r.violation(fn, fn.loc(where if where is not None else loop.ast), "%s: %s decodes value%s of the {shnum: value} entries, but "
+                        "_validate_block returns {%s: %s}: that is not one block" % (what, short(fn), sel, src(vb, t.ast.value.keys[0])
+                                                                                    if isinstance(t.ast.value, ast.Dict) else nf(key), nf(v.values[0])))
+            continue
+        want = nf(el)
+        for (c, args) in hashed:
+            n = node_of(vb, c)
+            subs = {nf(x) for a in args for x in ast.walk(vs.expand(n, a)) if isinstance(x, ast.expr)}
+            r.count(1)
+            if want not in subs:
+                r.violation(fn, fn.loc(where if where is not None else loop.ast), "%s: %s hands value%s of each {shnum: value} entry to "
+                            "the decoder, which is %s in _validate_block's result: not what %s checks against the block hash "
+                            "tree, so the decoder is not given the validated blocks" % (what, short(fn), sel, nf(el), src(vb, c)))
+                break
+        for x in trees:
+            n = node_of(vb, x)
+            if nf(vs.expand(n, x.slice)) != nf(key):
+                r.violation(vb, vb.loc(t.ast), "%s: the validated block is filed under %s but it was checked against the block hash "
+                            "tree of share %s: the decoder gets it with the wrong share number" % (what, nf(key), nf(vs.expand(n, x.slice))))
+                break
 
 
 def run_callers(ctx, r):
@@ -507,7 +629,9 @@ def run_callers(ctx, r):
         for c in calls:
             r.site(fn, c, what + ": paired block / share-number lists")
             r.count(1)
-            paired_lists(r, fn, c, what)
+            got = paired_lists(r, fn, c, what)
+            if what == "mutable retrieve" and got is not None:      # None: paired_lists has reported why
+                run_validated_blocks(idx, r, fn, got[0], got[1], what)
     # ---- encode callers
     # immutable: k chunks of the codec's block size
     es = idx.func("immutable.encode:Encoder._encode_segment")
@@ -616,7 +740,8 @@ def run(ctx: Context):
                   "returns the ids used", expected=3) as r:
         run_encode(ctx, r)
     with ctx.rule("C36.5", "R6/R9", "callers: block and share-number lists are built pairwise and cut alike; a segment is cut "
-                  "into k pieces of the codec's block size", expected=5) as r:
+                  "into k pieces of the codec's block size; mutable retrieve decodes the component _validate_block checked against the "
+                  "block hash tree, under that share's number", expected=7) as r:
         run_callers(ctx, r)
     with ctx.rule("C36.6", "R7", "what one encode()/decode() call hands to zfec travels in that call's frame, never through "
                   "instance attributes written per call and read back after the reactor turn was given up", expected=2) as r:
